@@ -775,6 +775,76 @@ def check_climboth(case, ctx):
                  % (" ".join(os.path.basename(a) if os.sep in a else a for a in argv), "\n".join(r.lines()[:4]), "\n".join(ra.lines()[:4]), "\n".join(rb.lines()[:4])))
 
 
+# ---- -obs / -fcst naming other columns (both at once, swapped, ...) against files whose columns were moved physically ----
+def fieldmap_strategy(tier):
+    @st.composite
+    def s(draw):
+        spec = draw(gen.dataset(max_inputs=2, clim=False, flavor="det", core_max=3, extra_max=1, allow_obsless=False, other_pool=("raw",)))
+        obs_src, fcst_src = draw(st.sampled_from([("fcst", "obs"), ("fcst", "obs"), ("fcst", "raw"), ("raw", "obs"), ("raw", None), (None, "raw"),
+                                                  ("fcst", None), (None, "obs"), ("raw", "raw")]))
+        metric = draw(st.sampled_from(["bias", "mae", "rmse", "corr", "obs", "fcst", "b", "c", "hit", "far", "diff"]))
+        return {"spec": spec, "obs_src": obs_src, "fcst_src": fcst_src, "metric": metric,
+                "axis": draw(st.sampled_from(["no", "time", "leadtime", "location"])),
+                "threshold": draw(st.integers(-8, 8)) / 2.0, "kind": draw(st.sampled_from(["text", "netcdf"])),
+                "obs_first": draw(st.booleans())}
+    return s()
+
+
+def check_fieldmap(case, ctx):
+    from .. import drive, mat
+    if "obs_src" not in case:
+        return check_cmd(case, ctx)
+    spec = case["spec"]
+    if not all((d.get("other") or {}).get("raw") is not None for d in spec["inputs"]):
+        # no third column in every file: exchange obs and fcst instead
+        case = dict(case, obs_src="fcst" if case["obs_src"] else None, fcst_src="obs" if case["fcst_src"] else None)
+    moved = copy.deepcopy(spec)
+    for d0, d1 in zip(spec["inputs"], moved["inputs"]):
+        col = {"obs": d0["obs"], "fcst": d0["fcst"], "raw": (d0.get("other") or {}).get("raw")}
+        if case["obs_src"]:
+            d1["obs"] = copy.deepcopy(col[case["obs_src"]])
+        if case["fcst_src"]:
+            d1["fcst"] = copy.deepcopy(col[case["fcst_src"]])
+    base = os.path.join(ctx.scratch, "fm%d_%d" % (os.getpid(), ctx.evals))
+    da, db = os.path.join(base, "a"), os.path.join(base, "b")
+    os.makedirs(da)
+    os.makedirs(db)
+    pa, _ = mat.write_files(spec, da, case["kind"])
+    pb, _ = mat.write_files(moved, db, case["kind"])
+    flags = []
+    if case["obs_src"]:
+        flags.append(["-obs", case["obs_src"]])
+    if case["fcst_src"]:
+        flags.append(["-fcst", case["fcst_src"]])
+    if not case["obs_first"]:
+        flags.reverse()
+    tail = ["-m", case["metric"], "-x", case["axis"], "-type", "csv"]
+    if case["metric"] in ("b", "c", "hit", "far"):
+        tail += ["-r", "%g" % case["threshold"], "-b", "above"]
+    r1 = drive.run(pa + [a for g in flags for a in g] + tail)
+    r2 = drive.run(pb + tail)
+    ctx.evals += 1
+    ctx.label("field-map/obs=%s,fcst=%s" % (case["obs_src"], case["fcst_src"]))
+    for r in (r1, r2):
+        if r.exc is not None:
+            ctx.fail("C13/field-map/exc/" + r.exc_key, case, r.tb[-500:])
+            return
+    if r2.exit not in (None, 0):
+        ctx.label("field-map/error-exit")
+        return
+    if r1.exit not in (None, 0):
+        ctx.fail("C13/field-map/unexpected-exit", case, "%s %s: %s" % (flags, tail, "\n".join(r1.lines()[-2:])))
+        return
+    h1, rows1 = drive.parse_csv(r1.lines())
+    h2, rows2 = drive.parse_csv(r2.lines())
+    vals = [x for row in rows2 for x in row[-len(spec["inputs"]):]]
+    if len(set(vals)) > 1 or (vals and vals[0] not in ("nan", "0")):
+        ctx.nt(("field-map", case["obs_src"], case["fcst_src"], case["metric"], case["axis"], spec["times"], [d["fcst"] for d in spec["inputs"]]))
+    if rows1 != rows2:
+        ctx.fail("C13/field-map/" + case["metric"], case, "%s %s prints\n%s\nthe same files with the columns moved physically give\n%s"
+                 % (" ".join(a for g in flags for a in g), " ".join(tail), "\n".join(r1.lines()[:5]), "\n".join(r2.lines()[:5])))
+
+
 # ---- -agg / -acc on the obsfcst table (the diagrams that aggregate read the option from the output object) ------------
 class _Rekey(object):
     """Forwards to the campaign context, reporting under this property's keys."""
@@ -815,4 +885,5 @@ def campaigns(tier):
         Hyp("clim-both", climboth_strategy, check_climboth, quick=240, thorough=6000, budget_quick=30, budget_thorough=600),
         Hyp("commands", cmd_strategy, check_cmd, quick=2400, thorough=40000, budget_quick=60, budget_thorough=1800),
         Hyp("agg-acc-obsfcst", aggacc_strategy, check_aggacc, quick=240, thorough=6000, budget_quick=30, budget_thorough=600),
+        Hyp("field-map", fieldmap_strategy, check_fieldmap, quick=320, thorough=8000, budget_quick=30, budget_thorough=600),
     ]
